@@ -57,6 +57,10 @@ if TYPE_CHECKING:
 log = logging.getLogger(__name__)
 
 
+# CIDs are numbers from 0 to 65535 (PDF 32000-1:2008, 9.7.5 and Annex C).
+MAX_CID = 65535
+
+
 def get_widths(seq: Iterable[object]) -> Dict[Union[str, int], float]:
     """Build a mapping of character widths for horizontal writing."""
     widths: Dict[int, float] = {}
@@ -74,7 +78,7 @@ def get_widths(seq: Iterable[object]) -> Dict[Union[str, int], float]:
             if len(r) == 3:
                 (char1, char2, w) = r
                 if isinstance(char1, int) and isinstance(char2, int):
-                    for i in range(cast(int, char1), cast(int, char2) + 1):
+                    for i in range(max(char1, 0), min(char2, MAX_CID) + 1):
                         widths[i] = w
                 else:
                     log.warning(
@@ -110,7 +114,7 @@ def get_widths2(seq: Iterable[object]) -> Dict[int, Tuple[float, Point]]:
             if len(r) == 5:
                 (char1, char2, w, vx, vy) = r
                 if isinstance(char1, int) and isinstance(char2, int):
-                    for i in range(cast(int, char1), cast(int, char2) + 1):
+                    for i in range(max(char1, 0), min(char2, MAX_CID) + 1):
                         widths[i] = (w, (vx, vy))
                 else:
                     log.warning(
